@@ -21,7 +21,7 @@ TECHNIQUE = ('Coq proof about GENERATED tables (16 wavelength factors observed t
              'a model-free oracle (physical definitions of the units, composition and round-trip identities)')
 LEVEL_TEXT = ('Theorems in coq/theories/Properties/C14.v: all 64 wavelength-unit triples, all 27 flux-unit triples for all '
               'real flux/wavelength values (H*C <> 0, wave <> 0), Spectrum.to preserves the trapezoid integral of densities '
-              'and the values of unitless spectra for all lists, wave/flux chains compose and round-trip, planck_* and '
+              'and the values of unitless spectra for all lists, wave/flux chains compose and round-trip, Spectrum.sample in another wave unit returns the own-unit samples / factor for densities (unchanged for unitless) and preserves the integral on the converted grid, planck_* and '
               'vegaflux in any unit pair are the SI function carried by the proved-consistent conversions, a Blackbody '
               'converted with Spectrum.to is the Blackbody built in the target units, exitance = pi * radiance. '
               'Wien peak and Stefan-Boltzmann total are numeric TESTS (not proofs), reported under coverage.extra.')
@@ -41,7 +41,7 @@ ASSUMPTIONS = ['wavelengths > 0 and strictly increasing, values >= 0, temperatur
                'comparison tolerance 1e-12 relative; Planck arguments hc/(lambda k T) in [0.05, 50]']
 RULE = ('all 49+ name pairs and all 64 triples of wavelength units; all 27 flux triples at random (flux, wave); Spectrum.to '
         'chains of length <= 6 over random unit sequences (density and unitless, random upper/lower case, closed chains '
-        'favoured) observed after every step; planck_radiance/exitance, Blackbody (+ to-chain, + sample), vegaflux in '
+        'favoured) observed after every step; Spectrum.sample(points, waveunit) for all 16 wave-unit pairs x {None, photlam, flam, wlam} (own grid and interior/outside points; spectrum untouched); planck_radiance/exitance, Blackbody (+ to-chain, + sample), vegaflux in '
         'all unit pairs; refused operations (unknown unit, None value unit -> flux); '
         'non-trivial = at least one conversion between two different units')
 
@@ -201,6 +201,23 @@ def generate(rng, tier):
         elif t < 0.08 and vu is None:
             c['args'].insert(rng.randint(0, len(c['args'])), rcase(rng, rng.choice(FNAMES)))
         yield c
+    # -- Spectrum.sample in another wave unit: all 16 wave-unit pairs x {None, photlam, flam, wlam}
+    for rep in range(1 if quick else 8):
+        for wu in WSHORT:
+            for wb in WSHORT:
+                for vu in [None] + FNAMES:
+                    for mode in ('grid', 'points'):
+                        n = rng.choice([2, 3, 4, 6])
+                        wave = rnd_waves(rng, n, wu)
+                        c = {'op': 'sample', 'wu': wu, 'vu': vu, 'wave': wave, 'value': rnd_values(rng, n),
+                             'wb': rcase(rng, wb) if rep else wb, 'mode': mode, 'points': []}
+                        if mode == 'points':
+                            k = float(METRES[wu] / METRES[wb])
+                            lo, hi = wave[0] * k, wave[-1] * k
+                            c['points'] = sorted([lo + rng.uniform(0.01, 0.99) * (hi - lo) for _ in range(rng.randint(1, 5))]
+                                                 + ([0.5 * lo] if rng.random() < 0.3 else []) + ([2.0 * hi] if rng.random() < 0.3 else []))
+                        yield c
+    yield {'op': 'sample', 'wu': 'nm', 'vu': 'flam', 'wave': [400.0, 500.0], 'value': [1.0, 2.0], 'wb': 'furlong', 'mode': 'points', 'points': [450.0]}
     # -- Planck in all unit pairs
     reps = 1 if quick else 12
     for rep in range(reps):
@@ -245,6 +262,8 @@ def classify(c):
         return f'chain/{"unitless" if c["vu"] is None else "density"}/len{len(c["args"])}{"/refused" if bad else ""}'
     if op == 'planck':
         return f'planck/{c["kind"]}'
+    if op == 'sample':
+        return f'sample/{"unitless" if c["vu"] is None else "density"}/{c["mode"]}'
     return op
 
 
@@ -258,6 +277,8 @@ def nontrivial(c):
         return all(fcanon(c[k]) for k in 'abc') and fcanon(c['a']) != fcanon(c['b'])
     if op == 'chain':
         return len(c['args']) >= 2 and len(c['wave']) >= 2 and len({a.lower() for a in c['args']}) >= 2
+    if op == 'sample':
+        return wcanon(c['wb']) is not None and wcanon(c['wb']) != wcanon(c['wu'])
     if op in ('planck', 'vega'):
         return wcanon(c['wn']) not in (None, 'm') or fcanon(c['vn']) not in (None, 'wlam')
     return True
@@ -307,6 +328,11 @@ def encode(c):
         tab = exp_table([x]) if x is not None else []
         return ([4, 0 if c['kind'] == 'radiance' else 1] + C.enc_q(c['wave']) + C.enc_q(c['temp'])
                 + [code(c['wn']), code(c['vn'])] + C.enc_q(math.pi) + enc_tab(tab))
+    if op == 'sample':
+        wu = WSHORT.index(wcanon(c['wu']))
+        vu = [0] if c['vu'] is None else [1, FNAMES.index(fcanon(c['vu']))]
+        return ([7, wu] + vu + C.enc_list(c['wave'], C.enc_q) + C.enc_list(c['value'], C.enc_q) + [code(c['wb'])]
+                + [0 if c['mode'] == 'points' else 1] + C.enc_list(c['points'], C.enc_q))
     if op == 'vega':
         return None          # needs the SI observation: encoded in compare through encode_vega
     if op == 'blackbody':
@@ -336,6 +362,8 @@ def decode(c, ints):
         return {'v': rd.q()}
     if op in ('chain', 'blackbody'):
         return dec_spec(rd)
+    if op == 'sample':
+        return {'values': rd.lst(rd.q)}
     raise ValueError(op)
 
 
@@ -381,6 +409,21 @@ def run_impl(c):
             fin = steps[-1]
             s3.to(*([fin['wu']] + ([fin['vu']] if fin['vu'] else [])))
             return {'steps': steps, 'once': snap(s2), 'direct': snap(s3)}
+        if op == 'sample':
+            mk = lambda: R.Spectrum(np.array(c['wave'], dtype=float), np.array(c['value'], dtype=float), c['wu'], c['vu'])
+            conv = mk()
+            conv.to(c['wb'])
+            cs = snap(conv)
+            pts = np.array(cs['wave'] if c['mode'] == 'grid' else c['points'], dtype=float)
+            s = mk()
+            before = snap(s)
+            if c['wb'] == 'nm' and len(c['wave']) % 2 == 0:
+                got = fl(s.sample(pts))                      # waveunit defaults to 'nm'
+            else:
+                got = fl(s.sample(pts, waveunit=c['wb']))
+            after = snap(s)
+            return {'values': got, 'points': fl(pts), 'before': before, 'after': after, 'converted': cs,
+                    'ref': fl(conv.sample(pts, waveunit=cs['wu']))}
         if op == 'planck':
             w, t, wn, vn = c['wave'], c['temp'], c['wn'], c['vn']
             out = {'rad': float(R.planck_radiance(w, t, wn, vn)), 'exi': float(R.planck_exitance(w, t, wn, vn))}
@@ -420,6 +463,12 @@ def compare(c, impl, model):
     if 'err' in impl:
         return None if impl['err'] == model['err'] else f'error kinds differ: impl {impl["err"]} model {model["err"]}'
     op = c['op']
+    if op == 'sample':
+        scale = max([abs(v) for v in c['value']] + [0.0]) * (truth_factor(wcanon(c['wb']), wcanon(c['wu'])) if c['vu'] else 1.0)
+        mv = [float(x) for x in model['values']]
+        if len(mv) != len(impl['values']) or any(abs(a - b) > TOL * scale for a, b in zip(impl['values'], mv)):
+            return f'sample in {c["wb"]} at {impl["points"]}: implementation {impl["values"]} model {mv}'
+        return None
     if op in ('factor', 'factor3', 'flux3', 'planck'):
         return None if close(impl['v'], model['v']) else f'{op}: implementation {impl["v"]!r} model {float(model["v"])!r}'
     fin = impl['steps'][-1] if op == 'chain' else impl
@@ -561,6 +610,38 @@ def oracle(c, impl):
         if (o['wu'], o['vu']) != (fin['wu'], fin['vu']) or not (lclose(fin['wave'], o['wave']) and lclose(fin['value'], o['value'])):
             return f'to(*args) and successive to(arg) calls differ for {c["args"]}'
         return None
+    if op == 'sample':
+        b = wcanon(c['wb'])
+        if b is None:
+            return expect_refusal(impl, f'sample(waveunit={c["wb"]!r})')
+        if 'err' in impl:
+            return f'Spectrum.sample(..., waveunit={c["wb"]!r}) raised {impl["err"]}'
+        a = wcanon(c['wu'])
+        bf, af = impl['before'], impl['after']
+        if (af['wu'], af['vu'], af['wave'], af['value']) != (bf['wu'], bf['vu'], bf['wave'], bf['value']):
+            return f'sample(waveunit={c["wb"]!r}) changed the spectrum itself: {bf} -> {af}'
+        k = truth_factor(a, b)                         # wavelengths *k, density values /k
+        cw = [w * k for w in c['wave']]
+        cv = [v / k for v in c['value']] if c['vu'] else list(c['value'])
+        scale = max([abs(v) for v in cv] + [0.0])
+        pts = impl['points']
+        exp = [float(y) for y in np.interp(np.array(pts), np.array(cw), np.array(cv), left=0.0, right=0.0)]
+        got = impl['values']
+        kind = f'a {c["vu"]} density' if c['vu'] else 'a unitless spectrum'
+        if c['mode'] == 'points':
+            if len(got) != len(exp) or any(abs(x - y) > TOL * scale for x, y in zip(got, exp)):
+                return (f'sample of {kind} given in {a} at {pts} {b}: {got}; linear interpolation of the spectrum '
+                        f'expressed in {b} (wavelengths * {k!r}, values {"/ " + repr(k) if c["vu"] else "unchanged"}) gives {exp}')
+        else:
+            if len(got) != len(cv) or any(abs(x - y) > TOL * scale for x, y in zip(got, cv)):
+                return (f'sample of {kind} given in {a} at its own grid expressed in {b} returns {got}, '
+                        f'the spectrum expressed in {b} has values {cv}')
+            if c['vu'] and not close(trapz(pts, got), bf['integral'], 1e-11):
+                return (f'the {c["vu"]} density sampled on its own grid expressed in {b} integrates to {trapz(pts, got)!r}, '
+                        f'the spectrum integrates to {bf["integral"]!r}')
+        if any(abs(x - y) > TOL * scale for x, y in zip(got, impl['ref'])):
+            return f'sample(waveunit={c["wb"]!r}) = {got} differs from converting a copy with to({c["wb"]!r}) and sampling there: {impl["ref"]}'
+        return None
     if op == 'planck':
         a, g = wcanon(c['wn']), fcanon(c['vn'])
         if a is None or g is None:
@@ -615,19 +696,6 @@ def oracle(c, impl):
             return f'Blackbody.vegamag(valueunit={c["vn"]!r}).sample at its own wavelengths gives {impl["sample"]}, its values are {impl["value"]}'
         return None
     return None
-
-
-def known_match(finding, case, impl):
-    if finding.get('id') == 'C14-vegamag-valueunit':
-        return bool(case) and case.get('op') == 'vegamag' and fcanon(case['vn']) != 'photlam' and 'err' not in impl
-    return False
-
-
-def replay_known(finding):
-    if finding.get('id') == 'C14-vegamag-valueunit':
-        c = {'op': 'vegamag', 'band': 'V', 'waves': [400.0, 500.0, 600.0], 'temp': 5000.0, 'mag': 2.0, 'wn': 'nm', 'vn': 'wlam'}
-        return oracle(c, run_impl(c)) is not None
-    return False
 
 
 # ------------------------------------------------------------------ extra: translator cross-check and labelled numeric TESTS
